@@ -15,7 +15,7 @@ RULE = ("sequential case = up to 40 generated operations (register fresh/duplica
         "(sequential) = an id was reused after unregister and both a matching and a non-matching test_and_set ran (with the resize "
         "avoidance off: an array grew after a value was stored in its last slot); non-trivial (concurrent) = an array grew while "
         "another thread was inside an operation, or two threads test_and_set the same slot within 3 steps; distinct = distinct case texts")
-AVOID = {"C41_AVOID_RESIZE_BUG": "1", "C41_AVOID_DUPID_BUG": "1"}
+AVOID = {}     # both info.c defects (C41-F1, C41-F2) are repaired in /repo: nothing is excluded any more (set C41_AVOID_*=1 by hand to restore)
 
 
 def _build():
@@ -46,8 +46,8 @@ def run(tier, seed, res):
     res.rule = RULE
     res.assumptions = ["set/get/test_and_set only on ids of live infos (header remark: the object belongs to the class that registered the info)",
                        "a user unregistering an info without destructor clears its slots first (the library does not)",
-                       "generation excludes the two known defects by construction (env C41_AVOID_RESIZE_BUG / C41_AVOID_DUPID_BUG, "
-                       "exclusions counted in the labels); their minimal replays under corpus/C41/regress are run separately",
+                       "the two info.c defects found by this check are repaired in /repo (known_findings.json C41-F1/F2): nothing is excluded, "
+                       "their minimal replays under corpus/C41/regress are regression cases",
                        "concurrent part: sequential consistency at atomic-operation granularity under dsched"]
     n = 16
     per = 2000 if quick else 250000
